@@ -202,45 +202,47 @@ theorem foldl_add (xs : List Int) (acc : Int) : xs.foldl (· + ·) acc = acc + x
   | nil => simp
   | cons x xs ih => simp only [List.foldl_cons]; rw [ih (acc + x), ih (0 + x)]; omega
 
-theorem sumFrom_ok (xs : List Int) : ∀ (acc v : Int),
-    xs.foldlM (fun acc b => if inInt64 (acc + b) then Except.ok (acc + b) else Except.error QErr.sumOverflow) acc = .ok v →
-    v = acc + xs.foldl (· + ·) 0 := by
-  induction xs with
-  | nil => intro acc v h; simp only [List.foldlM_nil, pure, Except.pure, Except.ok.injEq] at h; simp [h]
-  | cons x xs ih =>
-    intro acc v h
-    simp only [List.foldlM_cons, bind, Except.bind] at h
-    by_cases hr : inInt64 (acc + x) = true
-    · simp only [hr, if_true] at h
-      have := ih (acc + x) v h
-      rw [this, List.foldl_cons, foldl_add xs (0 + x)]; omega
-    · simp only [hr, Bool.false_eq_true, if_false] at h
-      cases h
-
 /-- The engine's int64 sum: whenever it answers, the answer is the arithmetic sum. -/
 theorem sumEngine_ok (xs : List Int) (v : Int) (h : sumEngine xs = .ok v) : v = xs.foldl (· + ·) 0 := by
-  have := sumFrom_ok xs 0 v h
-  omega
+  simp only [sumEngine] at h
+  split at h
+  · cases h; rfl
+  · cases h
 
-/-- … and it answers whenever no order of the values can leave int64 (the sum of the positive values and the
-    sum of the negative values are both int64). -/
-theorem sumFrom_defined (xs : List Int) : ∀ (acc : Int),
-    (∀ pre, pre <+: xs → inInt64 (acc + pre.foldl (· + ·) 0) = true) →
-    xs.foldlM (fun acc b => if inInt64 (acc + b) then Except.ok (acc + b) else Except.error QErr.sumOverflow) acc =
-      .ok (acc + xs.foldl (· + ·) 0) := by
+/-- … and it answers exactly when the arithmetic sum is an int64 — no condition on the running sums. -/
+theorem sumEngine_defined (xs : List Int) (h : inInt64 (xs.foldl (· + ·) 0) = true) :
+    sumEngine xs = .ok (xs.foldl (· + ·) 0) := by
+  simp only [sumEngine, h, if_true]
+
+theorem total_perm (xs ys : List Int) (h : xs.Perm ys) : xs.foldl (· + ·) 0 = ys.foldl (· + ·) 0 := by
+  induction h with
+  | nil => rfl
+  | cons x _ ih => simp only [List.foldl_cons]; rw [foldl_add _ (0 + x), foldl_add _ (0 + x), ih]
+  | swap x y l => simp only [List.foldl_cons]; rw [foldl_add _ (0 + y + x), foldl_add _ (0 + x + y)]; omega
+  | trans _ _ ih1 ih2 => rw [ih1, ih2]
+
+/-- The outcome — the sum or the overflow error — does not depend on the order of the values. -/
+theorem sumEngine_perm (xs ys : List Int) (h : xs.Perm ys) : sumEngine xs = sumEngine ys := by
+  simp only [sumEngine, total_perm xs ys h]
+
+theorem pos_neg_total (xs : List Int) :
+    (xs.filter (· > 0)).foldl (· + ·) 0 + (xs.filter (· < 0)).foldl (· + ·) 0 = xs.foldl (· + ·) 0 := by
   induction xs with
-  | nil => intro acc _; simp [pure, Except.pure]
+  | nil => rfl
   | cons x xs ih =>
-    intro acc h
-    have h1 : inInt64 (acc + x) = true := by
-      have := h [x] (by simp)
-      simpa using this
-    simp only [List.foldlM_cons, bind, Except.bind, h1, if_true]
-    rw [ih (acc + x)]
-    · rw [List.foldl_cons, foldl_add xs (0 + x)]; congr 1; omega
-    · intro pre hp
-      have := h (x :: pre) (by simpa using hp)
-      rw [List.foldl_cons, foldl_add pre (0 + x)] at this
-      rw [← this]; congr 1; omega
+    rw [List.foldl_cons, foldl_add xs (0 + x)]
+    by_cases h1 : x > 0
+    · have h2 : ¬ x < 0 := by omega
+      simp only [List.filter_cons, h1, h2, decide_true, decide_false, if_true, List.foldl_cons, Bool.false_eq_true, if_false]
+      rw [foldl_add _ (0 + x)]; omega
+    · by_cases h2 : x < 0
+      · simp only [List.filter_cons, h1, h2, decide_true, decide_false, if_true, List.foldl_cons, Bool.false_eq_true, if_false]
+        rw [foldl_add _ (0 + x)]; omega
+      · simp only [List.filter_cons, h1, h2, decide_false, Bool.false_eq_true, if_false]
+        omega
+
+/-- The reference's sum (positive and negative values apart) is the engine's. -/
+theorem sumExact_eq_engine (xs : List Int) : sumExact xs = sumEngine xs := by
+  simp only [sumExact, sumEngine, pos_neg_total]
 
 end BW.Proofs.QueryPost
